@@ -57,6 +57,7 @@ pub fn child_main(job: &Value) -> Value {
     match job["kind"].as_str() {
         Some("c01big") => crate::props::c01::job(job),
         Some("c02big") => crate::props::c02::job(job),
+        Some("c15big") => crate::props::c15::job(job),
         Some("c10big") => crate::props::c10::job(job),
         Some("c11big") => crate::props::c11::job(job),
         Some("c20big") => crate::props::c20::job(job),
